@@ -851,6 +851,102 @@ def rule_epfs_lower(model):
     return r
 
 
+def _name_alternatives(pattern, flags=0):
+    """Alternations of >= 2 purely alphabetic literal words (length >= 3)
+    in a regular expression: a list of tag names."""
+    import re._parser as _P
+    import re._constants as _C
+    try:
+        tree = _P.parse(pattern, flags)
+    except Exception:
+        return []
+    found = []
+
+    def word(seq):
+        out = ''
+        for op, av in seq:
+            if op is _C.LITERAL and chr(av).isalpha():
+                out += chr(av)
+            else:
+                return None
+        return out if len(out) >= 3 else None
+
+    def walk(seq):
+        for op, av in seq:
+            if op is _C.BRANCH:
+                words = [word(alt) for alt in av[1]]
+                good = [w for w in words if w]
+                if len(good) >= 2:
+                    found.append(good)
+                for alt in av[1]:
+                    walk(alt)
+            elif op is _C.SUBPATTERN:
+                walk(av[3])
+            elif op in (_C.MAX_REPEAT, _C.MIN_REPEAT):
+                walk(av[2])
+            elif op in (_C.ASSERT, _C.ASSERT_NOT):
+                walk(av[1])
+    walk(tree)
+    return found
+
+
+def rule_scanner_name_blind(model):
+    r = RuleResult('C07.R11', 'the tag scanners delimit tags without '
+                   'looking at WHICH tag it is: no scanner pattern lists '
+                   'tag names (whether a name is a known tag is decided by '
+                   'the one reader all syntaxes share; a scanner that '
+                   'passes over some names leaves them literal text in its '
+                   'syntax while the others raise "Unexpected tag")')
+    n = 0
+    ctl = _name_alternatives('(include|echo|exec)[ ]+[a-z]+=')
+    r.control('control: a pattern listing names is recognised',
+              bool(ctl) and not _name_alternatives('[ ]*(/|end)'))
+    sc = model.func('DT_HTML', 'dtml_re_class.search')
+    tg = model.func('DT_String', 'String.tagre')
+    for fi in (sc, tg):
+        cands = []
+        a = fi.node.args
+        for d in list(a.defaults) + [d for d in a.kw_defaults if d]:
+            for y in ast.walk(d):
+                if isinstance(y, ast.Call):
+                    cands.append(y)
+        for mg in fi.module.globals.values():
+            for v_ in mg:
+                for y in ast.walk(v_):
+                    if isinstance(y, ast.Call):
+                        cands.append(y)
+        for x in own_nodes(fi.node):
+            if isinstance(x, ast.Call):
+                cands.append(x)
+        seen = set()
+        for c in cands:
+            rx = None
+            try:
+                rx = model.regex_of(c, fi)
+            except Exception:
+                rx = None
+            if not rx:
+                continue
+            pat, flags = rx[0], rx[1] if len(rx) > 1 else 0
+            if pat in seen:
+                continue
+            seen.add(pat)
+            n += 1
+            names = _name_alternatives(pat, flags or 0)
+            r.instance(fi.where, repr(pat)[:70], 'name blind' if not names
+                       else f'LISTS NAMES {names[0]}')
+            if names:
+                r.finding(fi.where, f'pattern listing {names[0][:4]}',
+                          f'a scanner pattern matches the tag names '
+                          f'{names[0]}: tags with these names are treated '
+                          'differently by this syntax\'s scanner (skipped, '
+                          'or delimited otherwise) than by the other two',
+                          node=c, ctx=fi)
+    if n < 4:
+        raise AnalysisError(f'C07.R11: only {n} scanner patterns found')
+    return r
+
+
 def rule_one_table(model):
     r = RuleResult('C07.R9', 'the three syntaxes compile with one command '
                    'table: `commands` is defined once, on the base template '
@@ -908,7 +1004,8 @@ def rule_one_table(model):
 
 RULES = [rule_overrides, rule_siblings, rule_groups, rule_entity,
          rule_widths, rule_scanner_twins, rule_epfs_language,
-         rule_args_blanks, rule_one_table, rule_epfs_lower]
+         rule_args_blanks, rule_one_table, rule_epfs_lower,
+         rule_scanner_name_blind]
 EXPLANATION = (
     'Override-set query on the template class hierarchy; comparison of the '
     'normalised decisions (returns, raises, tests) of the two parseTag '
